@@ -25,6 +25,7 @@ import limbir         # noqa: E402
 import alggen         # noqa: E402
 import vecir          # noqa: E402
 import inventory      # noqa: E402
+import fiatir         # noqa: E402
 from limbir import ItemSpec, TransErr   # noqa: E402
 
 CD = 'curve25519-dalek/src/'
@@ -43,13 +44,45 @@ F_X25519 = 'x25519-dalek/src/x25519.rs'
 
 
 class ModuleSpec(object):
-    def __init__(self, name, src, self_type, consts, items, vec=None):
+    def __init__(self, name, src, self_type, consts, items, vec=None, fiat=None):
+        self.fiat = fiat    # None | file name inside the fiat-crypto crate (`curve25519_64.rs`)
         self.name = name
         self.src = src
         self.self_type = self_type
         self.consts = consts
         self.items = items
         self.vec = vec      # None | dict(extra=[files], imports={use path: file}, wrappers=file, expand=fn)
+
+
+F_FIAT64 = CD + 'backend/serial/fiat_u64/field.rs'
+F_FIAT32 = CD + 'backend/serial/fiat_u32/field.rs'
+
+
+def fiat_items(n):
+    return [it for it in _fiat_items(n) if not (n == 10 and it.name == 'reduce')]
+
+
+def _fiat_items(n):
+    return [
+        ItemSpec('add', 'add_assign', trait='AddAssign', expect=(2 * n, n)),
+        ItemSpec('add_ref', 'add', trait='Add', expect=(2 * n, n), note='the by-reference Add impl (separate body)'),
+        ItemSpec('sub', 'sub', trait='Sub', expect=(2 * n, n)),
+        ItemSpec('sub_assign', 'sub_assign', trait='SubAssign', expect=(2 * n, n)),
+        ItemSpec('mul', 'mul', trait='Mul', expect=(2 * n, n)),
+        ItemSpec('mul_assign', 'mul_assign', trait='MulAssign', expect=(2 * n, n)),
+        ItemSpec('neg', 'neg', trait='Neg', expect=(n, n)),
+        ItemSpec('reduce', 'reduce', expect=(n, n), note='input: loose limbs'),
+        ItemSpec('from_bytes', 'from_bytes', expect=(32, n)),
+        ItemSpec('as_bytes', 'as_bytes', expect=(n, 32)),
+        ItemSpec('square', 'square', expect=(n, n)),
+        ItemSpec('square2', 'square2', expect=(n, n)),
+        ItemSpec('pow2k_body', 'pow2k', expect=(n, n), opaque=('k',), loop_once=True,
+                 note='one iteration of the `loop` in pow2k (loop count / exit test not modelled)'),
+        ItemSpec('conditional_select', 'conditional_select', trait='ConditionallySelectable', expect=(2 * n + 1, n),
+                 note='inputs: a, b, then the choice byte (asserted < 2)'),
+        ItemSpec('conditional_assign', 'conditional_assign', trait='ConditionallySelectable', expect=(2 * n + 1, n),
+                 note='inputs: self, rhs, then the choice byte (asserted < 2)'),
+    ]
 
 
 F_AVX2_FIELD = CD + 'backend/vector/avx2/field.rs'
@@ -212,6 +245,8 @@ MODULES = [
     ModuleSpec('Clamp', F_SCALAR, None, None, [
         ItemSpec('clamp_integer', 'clamp_integer', expect=(32, 32), toplevel=True),
     ]),
+    ModuleSpec('FiatField51', F_FIAT64, 'FieldElement51', None, fiat_items(5), fiat='curve25519_64.rs'),
+    ModuleSpec('FiatField26', F_FIAT32, 'FieldElement2625', None, fiat_items(10), fiat='curve25519_32.rs'),
     ModuleSpec('Avx2Field', F_AVX2_FIELD, 'FieldElement2625x4', None, None,
                vec=dict(extra=[F_FIELD64, F_AVX2],
                         imports={('crate', 'backend', 'vector', 'avx2', 'constants'): F_AVX2},
@@ -249,6 +284,31 @@ class Sources(object):
         self.repo = repo
         self.cache = {}
         self.errors = {}
+
+    def fiat_dir(self):
+        """source directory of the fiat-crypto version pinned by the workspace Cargo.lock (cargo registry copy)."""
+        import glob
+        lock = open(os.path.join(self.repo, 'Cargo.lock')).read()
+        m = re.search(r'name = "fiat-crypto"\s*\nversion = "([^"]+)"', lock)
+        if not m:
+            raise TransErr('fiat-crypto is not in Cargo.lock')
+        home = os.environ.get('CARGO_HOME') or os.path.join(os.path.expanduser('~'), '.cargo')
+        c = sorted(glob.glob(os.path.join(home, 'registry', 'src', '*', 'fiat-crypto-' + m.group(1), 'src')))
+        if not c:
+            raise TransErr('fiat-crypto %s sources not found under %s/registry/src' % (m.group(1), home))
+        return c[0], m.group(1)
+
+    def get_fiat(self, name):
+        key = 'extern:fiat-crypto/' + name
+        if key in self.cache:
+            return self.cache[key]
+        d, ver = self.fiat_dir()
+        try:
+            sf = rslex.SourceFile(os.path.join(d, name), 'fiat-crypto-%s/src/%s' % (ver, name))
+        except (OSError, rslex.LexError, rslex.ScanError, UnicodeDecodeError) as ex:
+            raise TransErr('cannot read/scan fiat-crypto %s: %s' % (name, ex))
+        self.cache[key] = sf
+        return sf
 
     def get(self, rel):
         if rel in self.cache:
@@ -365,6 +425,9 @@ def translate_item(srcs, mod, spec):
             wsf = srcs.get(mod.vec['wrappers'])
             vecir.check_packed_simd(wsf)
             wrap_items = [it for it in wsf.items if it.kind in ('macro', 'impl')]
+        elif mod.fiat:
+            ffile = srcs.get_fiat(mod.fiat)
+            mctx = limbir.ModuleCtx(main, cfile, [ffile])
         else:
             mctx = limbir.ModuleCtx(main, cfile)
         if spec.toplevel:
@@ -388,6 +451,8 @@ def translate_item(srcs, mod, spec):
             enums = dict((en, enum_variants(main, en)) for en in mod.vec['enums'])
             imports = dict((k, srcs.get(f)) for k, f in mod.vec['imports'].items())
             tr = vecir.VecTranslator(mctx, spec, mod.self_type, enums, imports)
+        elif mod.fiat:
+            tr = fiatir.FiatTranslator(mctx, spec, mod.self_type, ffile)
         else:
             tr = limbir.Translator(mctx, spec, mod.self_type)
         nin, body, outs, out_tys = tr.translate(item, imp, file)
